@@ -305,7 +305,7 @@ func genPacket(r *vlib.R, labels []string, qtype, qclass uint16, weird bool) pkt
 
 // ---------------------------------------------------------------- generator
 
-var scenarios = []string{"pos", "pos", "two", "cn1", "cn2", "cn3", "cnf1", "cnx1", "cns1", "cnl1", "sig", "sig", "cng", "nx", "nxs", "nd", "ede", "edn",
+var scenarios = []string{"pos", "pos", "two", "cn1", "cn2", "cn3", "cnf1", "cnx1", "cns1", "cnl1", "sig", "sig", "cng", "cnu", "cnu", "nx", "nxs", "nd", "ede", "edn",
 	"big", "mid", "sf", "sfe", "ref", "tc", "aa", "nil", "zzz"}
 
 func uniq(r *vlib.R, k *int) string {
